@@ -15,6 +15,13 @@ CLAIMED = {
          "symbolic execution of the real SSA + SMT (z3) round-trip assertion", "DESIGN.md §5 C19"),
 }
 
+CLAIMED["C08"] = ("Bounded symbolic model checking of history recording: Sources.Accept/Write run on symbolic accepted lines, symbolic prior entries, 1-2 bound sources (every map iteration order) and a symbolic history-size; the post-state of every source is compared with the recording rule of the property, decided by z3 on every path.",
+ "Trusted: gosx; the accept variants are driven at the Sources.Accept level (what accept-line / accept-and-hold / operate-and-get-next / interrupt call), not through the key loop.",
+ "symbolic execution of the real SSA + SMT (z3) comparison with a reference recording rule", "DESIGN.md §5 C08")
+CLAIMED["C09"] = ("Bounded symbolic model checking of history navigation and search through the real Readline loop: symbolic history entries and in-progress text, symbolic sequences of navigation/search commands typed through key bindings; after every command the buffer is compared with a position model / matching rule and the entries with their initial values.",
+ "Trusted: gosx, the paint stubs (display output is not observed), the terminal stub answering cursor queries; incremental search (Ctrl-R/Ctrl-S sessions) is not driven.",
+ "symbolic execution of the real SSA (Readline loop) + SMT (z3) assertions against a navigation model", "DESIGN.md §5 C09")
+
 PENDING = {}
 
 NA = {
